@@ -463,6 +463,18 @@ func (ex *Exec) specCall(x SCall, env *SpecEnv) Term {
 		return Term{app("str.replace_all", arg(0), arg(1), arg(2)), SString}
 	case "indexOf":
 		return Term{"(str.indexof " + arg(0).S + " " + arg(1).S + " 0)", SInt}
+	case "ref":
+		v := arg(0)
+		return Term{v.S, SInt}
+	case "unchanged":
+		// a map (both its contents and its domain) is the same as in the pre-state
+		m := arg(0)
+		if m.Sort.Kind != KRef || !m.Sort.IsMap || env.old == nil {
+			sfail("unchanged() needs a map and a pre-state")
+		}
+		h1, d1 := ex.heap(ex.st, m.Sort.Heap), ex.heap(ex.st, m.Sort.Dom)
+		h0, d0 := ex.heap(env.old, m.Sort.Heap), ex.heap(env.old, m.Sort.Dom)
+		return And(Eq(Term{sel(h1, m), SBool}, Term{sel(h0, m), SBool}), Eq(Term{sel(d1, m), SBool}, Term{sel(d0, m), SBool}))
 	case "isNil":
 		v := arg(0)
 		return Eq(v, U.Zero(v.Sort))
